@@ -65,7 +65,30 @@ class MachineTracer:
                         break
             for c in owners:
                 self._patch(c, meth, self._step_cb(c.__dict__[meth], kind, side))
+        # the optional filling of occlusions / mismatches inside the validation step (a sub-step of its own)
+        from pandora.validation import interpolated_disparity as interp_mod
+        owners = set()
+        for cls in list(interp_mod.AbstractInterpolation.interpolation_methods_avail.values()):
+            for c in cls.__mro__:
+                if "interpolated_disparity" in c.__dict__:
+                    owners.add(c)
+                    break
+        for c in owners:
+            self._patch(c, "interpolated_disparity", self._fill_cb(c.__dict__["interpolated_disparity"]))
         return self
+
+    def _fill_cb(self, orig):
+        tracer = self
+
+        @functools.wraps(orig)
+        def wrapper(obj, ds, *args, **kw):
+            m = tracer.machine
+            if tracer.cur_kind == "validation" and m is not None:
+                sd = "L" if ds is m.left_disparity else ("R" if ds is m.right_disparity else "?")
+                tracer.events.append({"ev": "RunSub", "what": "fill", "name": tracer.cur_step, "kind": "validation", "side": sd,
+                                      "cscale": m.current_scale})
+            return orig(obj, ds, *args, **kw)
+        return wrapper
 
     def __exit__(self, *exc):
         for obj, name, orig in reversed(self._undo):
@@ -110,6 +133,21 @@ class MachineTracer:
                     sd = "L" if arg is m.left_img else ("R" if arg is m.right_img else "?")
                 else:
                     sd = "L" if arg is m.left_disparity else ("R" if arg is m.right_disparity else "?")
+                # the side of EVERY machine-owned object handed to the step (image, cost volume, disparity dataset): a step
+                # execution is "on the left data" only when all of them are the left ones (first object of each sort: the
+                # second image of a call is by design the other one)
+                sorts = {}
+                for a_ in list(args) + list(kw.values()):
+                    for sort, lobj, robj in (("img", m.left_img, m.right_img), ("cv", m.left_cv, m.right_cv),
+                                             ("disp", m.left_disparity, m.right_disparity)):
+                        if a_ is not None and lobj is not None and a_ is lobj:
+                            sorts.setdefault(sort, "L")
+                        elif a_ is not None and robj is not None and a_ is robj:
+                            sorts.setdefault(sort, "R")
+                if kind == "validation":
+                    sorts.pop("cv", None)     # disparity_checking receives the reference side's own cv or None
+                if sd != "?" and any(v != sd for v in sorts.values()):
+                    sd = "mixed:" + ",".join(f"{k_}={v}" for k_, v in sorted(sorts.items()))
                 li = m.left_img
                 evt = {"ev": "RunCb", "name": tracer.cur_step, "kind": kind, "side": sd,
                        "rows": int(li.sizes["row"]), "cols": int(li.sizes["col"]), "cscale": m.current_scale}
